@@ -26,8 +26,12 @@ const void *vf_wipe_ptr[VF_WIPE_LOG];
 size_t vf_wipe_len[VF_WIPE_LOG];
 unsigned vf_wipe_n;
 
+_Bool vf_wipe_partial;
 void explicit_bzero(void *s, size_t n)
 {
+  /* does the wipe stop short of the end of the object it starts in?  (only
+     meaningful, and only asserted, in harnesses whose wipes are all whole-object) */
+  if (n != __CPROVER_OBJECT_SIZE(s) - __CPROVER_POINTER_OFFSET(s)) vf_wipe_partial = 1;
   if (vf_wipe_n < VF_WIPE_LOG) {
     vf_wipe_ptr[vf_wipe_n] = s;
     vf_wipe_len[vf_wipe_n] = n;
@@ -208,9 +212,10 @@ void abort(void)
 /* arc4random_buf: fresh nondeterministic bytes; the request is logged (C09d, C12). */
 void *vf_rand_ptr;
 size_t vf_rand_len;
-unsigned vf_rand_calls;
+unsigned vf_rand_calls, vf_rand_at;
 void arc4random_buf(void *buf, size_t n)
 {
+  vf_rand_at = vf_wipe_n;
   unsigned char *p = buf;
   vf_rand_ptr = buf;
   vf_rand_len = n;
